@@ -63,3 +63,82 @@ func c05PooledBuffers(c *Ctx) {
 		c.Ok("pooled-buffer-released-once", "no pooled storage in the event, listener, server and service packages", "-", "nothing is recycled through sync.Pool today; the rule arms itself on the first Put")
 	}
 }
+
+// c05SerialisedUnmodified: what a channel sends is the JSON document json.Marshal produced for the snapshot, byte for
+// byte. The marshalled bytes may be converted, wrapped in a message and written; handing them to a byte/string rewriting
+// function (bytes.Replace, strings.*, regexp), re-slicing or patching them afterwards can turn a valid document into an
+// invalid one for particular contents (an event value that already contains the text of a JSON escape), and the consumer
+// loses every key of that event.
+func c05SerialisedUnmodified(c *Ctx) {
+	p := c.P
+	const rule = "serialised-bytes-unmodified"
+	n := 0
+	for _, fn := range p.FuncsIn("pushers", "event") {
+		if strings.HasSuffix(p.Fset.Position(fn.Pos()).Filename, "_test.go") {
+			continue
+		}
+		for _, call := range Calls(fn) {
+			cv, ok := call.(*ssa.Call)
+			if !ok || !(CalleeIs(call, "encoding/json", "Marshal") || CalleeIs(call, "encoding/json", "MarshalIndent")) {
+				continue
+			}
+			var data ssa.Value
+			for _, ref := range *cv.Referrers() {
+				if ex, ok := ref.(*ssa.Extract); ok && ex.Index == 0 {
+					data = ex
+				}
+			}
+			if data == nil {
+				continue
+			}
+			n++
+			bad := ""
+			seen := map[ssa.Value]bool{}
+			var walk func(v ssa.Value, depth int)
+			walk = func(v ssa.Value, depth int) {
+				if seen[v] || v.Referrers() == nil || depth > 6 || bad != "" {
+					return
+				}
+				seen[v] = true
+				for _, r := range *v.Referrers() {
+					switch x := r.(type) {
+					case *ssa.Convert:
+						walk(x, depth+1)
+					case *ssa.ChangeType:
+						walk(x, depth+1)
+					case *ssa.Phi:
+						walk(x, depth+1)
+					case *ssa.Slice:
+						if x.X == v && (x.Low != nil || x.High != nil) {
+							bad = p.InstrPos(x) + " re-slices the document"
+						}
+					case *ssa.IndexAddr:
+						if x.X == v {
+							for _, r2 := range *x.Referrers() {
+								if st, ok := r2.(*ssa.Store); ok && st.Addr == ssa.Value(x) {
+									bad = p.InstrPos(st) + " patches a byte of the document"
+								}
+							}
+						}
+					case ssa.CallInstruction:
+						f := x.Common().StaticCallee()
+						if f == nil {
+							continue
+						}
+						switch PkgOf(f) {
+						case "bytes", "strings", "regexp":
+							switch f.Name() {
+							case "Equal", "Compare", "Contains", "HasPrefix", "HasSuffix", "Index", "IndexByte", "Count", "NewReader", "NewBuffer", "NewBufferString":
+							default:
+								bad = p.InstrPos(x) + " passes the document to " + FuncShort(f)
+							}
+						}
+					}
+				}
+			}
+			walk(data, 0)
+			c.Check(bad == "", rule, shortFn(fn)+" json.Marshal result", p.InstrPos(cv), "sent as produced", "the marshalled event is rewritten after json.Marshal ("+bad+"): for events whose values contain the affected byte sequences the result is no longer the JSON document of the snapshot (it may not parse at all), and the consumer loses the event's keys")
+		}
+	}
+	c.Floor(rule, 2, "kafka run, rabbitmq/pulsar Send")
+}
